@@ -582,11 +582,14 @@ def run(ctx):
     # (1) TLC exhaustive
     confs = [dict(n=4, w=2, cap=2), dict(n=4, w=2, cap=1)] if q else \
             [dict(n=4, w=2, cap=2), dict(n=4, w=2, cap=1), dict(n=3, w=3, cap=2), dict(n=5, w=2, cap=4), dict(n=4, w=3, cap=6), dict(n=3, w=3, cap=1)]
-    for c in confs:
-        ctx.tlc("MCWorkQueue", cfg_text=CFG % dict(c, faults="NoFaults"), timeout=1800)
+    import concurrent.futures
+    jobs = [lambda c=c: ctx.tlc("MCWorkQueue", cfg_text=CFG % dict(c, faults="NoFaults"), timeout=1800, workers=4) for c in confs]
     # the OS pipe between feeder and workers: items larger than the pipe (PipeCap 0: images), a pipe of one item
     for c, pc in ([(confs[0], 0), (confs[1], 1)] if q else [(c, pc) for c in confs[:4] for pc in (0, 1)]):
-        ctx.tlc("MCWorkQueue", cfg_text=(CFG % dict(c, faults="NoFaults")).replace("PipeCap = 99", "PipeCap = %d" % pc), timeout=1800)
+        jobs.append(lambda c=c, pc=pc: ctx.tlc("MCWorkQueue", cfg_text=(CFG % dict(c, faults="NoFaults")).replace("PipeCap = 99", "PipeCap = %d" % pc), timeout=1800, workers=4))
+    with concurrent.futures.ThreadPoolExecutor(max_workers=4) as ex:
+        for f in [ex.submit(j) for j in jobs]:
+            f.result()
     # (2) spec -> code replay
     l1 = [(1, 0, 0), (1, 1, 0), (1, 0, 1), (1, 1, 1)]
     acc5 = frozenset(l1[:2]) | {(2, 0, 0), (2, 1, 1), (2, 2, 0), (2, 3, 0), (2, 3, 1)}
